@@ -48,6 +48,9 @@ checks = {
  "C20": ("exploration", "Go race detector over repeated stress workloads (simulated network and real gRPC transport)",
          "The harness is built with -race; many goroutines call every public method while background loops, RPC handlers, role changes, snapshots, membership changes and stop/start run; reports are parsed from the detector's log files, classified by whether both accesses are inside the library, and de-duplicated by function pair.",
          "only races on interleavings that actually happened are reported", "5/C20"),
+ "C18": ("exploration", "API call sequences under panic capture, fatal hook, hang watchdog and future timers; child process per sequence",
+         "Seed-determined bounded sequences of public API calls with valid, boundary and invalid arguments in every node state; oracles: no panic (in the caller or in any library goroutine), no fatal abort, no call blocked beyond the hang bound (with goroutine dumps), every future resolved by its timeout, committed membership change resolves its future.",
+         "bounded sequences; real time with generous bounds", "5/C18"),
 }
 
 not_yet = {
